@@ -1,53 +1,12 @@
 // C05: every persistence-matrix flavour computes the barcode of an independent reduction and satisfies its defining identities,
 // also after the last cells are removed and inserted again.
+#define VP_NEED_IDENT
 #include "pm_common.h"
 #ifndef VP_RM
 #define VP_RM 0
 #endif
-static void check_identities(Mat& mat, int n) {
-  int D[M][M], Ro[M][M], Uo[M][M], low[M], pairOf[M]; dense_boundary(D, n); reduce(D, n, low, pairOf, Ro, Uo);
-  int C[M][M];   // what the matrix exposes as column j (R for boundary/RU, the chain for the chain flavour)
-  for (int j = 0; j < n; j++) { auto cont = mat.get_column(j).get_content(n); for (int r = 0; r < n; r++) C[r][j] = (int)cont[r]; }
-  bool pivUsed[M]; for (int i = 0; i < M; i++) pivUsed[i] = false;
-  for (int j = 0; j < n; j++) { int l = -1; for (int r = n - 1; r >= 0; r--) if (C[r][j]) { l = r; break; }
-#if VP_FLAVOUR == 2
-    vp_assert(l >= 0, "chain columns are never empty");
-#endif
-    if (l >= 0) { vp_assert(!pivUsed[l], "non-zero columns have distinct lowest entries"); pivUsed[l] = true; }
-#if VP_FLAVOUR != 0 || 1
-    { auto p = mat.get_pivot(j); if (l >= 0) vp_assert((int)p == l, "get_pivot is the lowest non-zero row"); else vp_assert(p == Mat::template get_null_value<typename Mat::ID_index>(), "get_pivot of a zero column is the null index"); }
-#endif
-    vp_assert(mat.is_zero_column(j) == (l < 0), "is_zero_column"); vp_assert(mat.get_column_dimension(j) == pc(cell[j]) - 1, "get_column_dimension");
-#if VP_FLAVOUR == 1 || VP_FLAVOUR == 2
-    if (l >= 0) vp_assert((int)mat.get_column_with_pivot(l) == j, "get_column_with_pivot maps the pivot back to its column");
-#endif
-  }
-#if VP_FLAVOUR == 0 || VP_FLAVOUR == 1
-  // R is a reduction of D: same pivots as the oracle (the reduced matrix is not unique, its pivot pairing is)
-  for (int j = 0; j < n; j++) { int l = -1; for (int r = n - 1; r >= 0; r--) if (C[r][j]) { l = r; break; } vp_assert(l == low[j], "pivot of R equals the pivot of an independent reduction"); }
-#endif
-#if VP_FLAVOUR == 1 && VP_IDX != 2   /* U is not exposed with identifier indexation */
-  { int Um[M][M]; for (int j = 0; j < n; j++) { auto cont = mat.get_column(j, false).get_content(n); for (int r = 0; r < n; r++) Um[r][j] = (int)cont[r]; }
-    bool tri = true; for (int j = 0; j < n; j++) { if (Um[j][j] == 0) tri = false; for (int r = j + 1; r < n; r++) if (Um[r][j]) tri = false; }
-    vp_assert(tri, "U is upper triangular with a non-zero diagonal");
-    bool rdu = true, dru = true;   // R = D*U   or   D = R*U  (the exposed factor may be stored as the inverse)
-    for (int j = 0; j < n; j++) for (int r = 0; r < n; r++) { int a = 0, b = 0; for (int k = 0; k < n; k++) { a = (a + D[r][k] * Um[k][j]) % MOD; b = (b + C[r][k] * Um[k][j]) % MOD; } if (a != C[r][j]) rdu = false; if (b != D[r][j]) dru = false; }
-    vp_assert(rdu || dru, "R and U factor the boundary matrix"); }
-#endif
-#if VP_FLAVOUR == 2
-  // chain basis: unpaired chains are cycles, the boundary of a paired (death) chain is a non-zero multiple of its partner
-  for (int j = 0; j < n; j++) { int bd[M]; for (int r = 0; r < n; r++) { bd[r] = 0; for (int k = 0; k < n; k++) bd[r] = (bd[r] + D[r][k] * C[k][j]) % MOD; }
-    // which chain has leading cell j: the column with pivot j
-    int lead = -1; for (int r = n - 1; r >= 0; r--) if (C[r][j]) { lead = r; break; }
-    if (lead < 0) continue;
-    if (pairOf[lead] == -1 || pairOf[lead] > lead) { bool z = true; for (int r = 0; r < n; r++) if (bd[r]) z = false; vp_assert(z, "chain of an unpaired or birth cell is a cycle"); }
-    else { int b = pairOf[lead]; int cb = -1; for (int q = 0; q < n; q++) { int lq = -1; for (int r = n - 1; r >= 0; r--) if (C[r][q]) { lq = r; break; } if (lq == b) cb = q; }
-      vp_assert(cb >= 0, "partner chain exists"); if (cb < 0) continue; int lam = 0; for (int r = 0; r < n; r++) if (C[r][cb]) { lam = bd[r] * inv_mod(C[r][cb]) % MOD; break; }
-      bool ok = lam != 0; for (int r = 0; r < n; r++) if (bd[r] != lam * C[r][cb] % MOD) ok = false; vp_assert(ok, "the boundary sends a paired chain onto its partner"); } }
-#endif
-}
 extern "C" void harness() {
-  choose_filtration();
+  choose_filtration(); for (int i = 0; i < M; i++) idAtPos[i] = i;
 #if VP_Z2
   Mat mat(M);
 #else
